@@ -75,10 +75,12 @@ Fixpoint parse_dec (s : bytes) (acc : Z) : Z :=
   match s with [] => acc | c :: r => parse_dec r (acc * 10 + Z.of_N (c - 48)) end.
 Definition parse_int (s : bytes) : Z := match s with 45%N :: r => - parse_dec r 0 | _ => parse_dec s 0 end.
 
-(** "code,received,blockFor,dataPresent,writeType" *)
+Fixpoint join_commas (l : list bytes) : bytes :=
+  match l with [] => [] | [x] => x | x :: r => x ++ 44%N :: join_commas r end.
+(** "code,received,blockFor,dataPresent,writeType" -- the write type is everything after the fourth comma (a hostile backend can put a comma into it) *)
 Definition err_of_fields (s : bytes) : err_info :=
   let f := fields s in
-  mk_err (parse_int (nth 0 f [])) (parse_int (nth 1 f [])) (parse_int (nth 2 f [])) (bytes_eqb (nth 3 f []) (str "true")) (nth 4 f []).
+  mk_err (parse_int (nth 0 f [])) (parse_int (nth 1 f [])) (parse_int (nth 2 f [])) (bytes_eqb (nth 3 f []) (str "true")) (join_commas (skipn 4 f)).
 
 Inductive verdict := Accept (s : mstate) | Reject (why : bytes).
 
